@@ -80,6 +80,9 @@ pub fn lib<R>(f: impl FnOnce() -> R) -> Result<R, String> {
 }
 
 pub fn install_silent_panic_hook() {
+    if std::env::var("FIVERIF_PANIC_VERBOSE").is_ok() {
+        return;
+    }
     std::panic::set_hook(Box::new(|_| {}));
 }
 
@@ -206,6 +209,9 @@ pub fn reset_thread_state() {
     });
     ARMED.with(|a| a.set(false));
     take_alloc_counts();
+    take_teardown_panic();
+    let old: Vec<Box<dyn std::any::Any>> = DEFERRED_FREE.with(|d| std::mem::take(&mut *d.borrow_mut()));
+    drop(old);
 }
 
 // -------------------------------------------------- storage of pinned futures
@@ -225,12 +231,12 @@ pub fn free_on_drop() -> bool {
 
 /// Heap storage for a pinned future whose destructor can be run while the
 /// memory stays allocated.
-pub struct Pinned<F> {
+pub struct Pinned<F: 'static> {
     mem: Option<Box<MaybeUninit<F>>>,
     alive: bool,
 }
 
-impl<F> Pinned<F> {
+impl<F: 'static> Pinned<F> {
     pub fn new(f: F) -> Self {
         Pinned { mem: Some(Box::new(MaybeUninit::new(f))), alive: true }
     }
@@ -270,9 +276,38 @@ impl<F> Pinned<F> {
     }
 }
 
-impl<F> Drop for Pinned<F> {
+thread_local! {
+    static TEARDOWN_PANIC: RefCell<Option<String>> = const { RefCell::new(None) };
+}
+/// message of a panic raised by a future's destructor while a system was torn down
+pub fn take_teardown_panic() -> Option<String> {
+    TEARDOWN_PANIC.with(|t| t.borrow_mut().take())
+}
+
+thread_local! {
+    /// storage of futures whose owner was torn down: freed at the start of the next replay,
+    /// so that the teardown of a whole system never touches freed memory of a sibling future
+    static DEFERRED_FREE: RefCell<Vec<Box<dyn std::any::Any>>> = const { RefCell::new(Vec::new()) };
+}
+
+impl<F: 'static> Drop for Pinned<F> {
     fn drop(&mut self) {
-        self.kill();
+        if self.alive {
+            let earlier_panic = TEARDOWN_PANIC.with(|t| t.borrow().is_some());
+            if earlier_panic {
+                // a sibling's destructor already panicked during this teardown: the structure
+                // is suspect, do not run further destructors on it (leak this future)
+                self.alive = false;
+            } else if let Err(e) = std::panic::catch_unwind(std::panic::AssertUnwindSafe(|| self.kill())) {
+                // a panicking destructor must not escape: several futures are dropped in a row
+                // when a system is torn down, and a second panic during unwinding aborts the process
+                let msg = e.downcast_ref::<&str>().map(|s| s.to_string()).or_else(|| e.downcast_ref::<String>().cloned()).unwrap_or_default();
+                TEARDOWN_PANIC.with(|t| *t.borrow_mut() = Some(msg));
+            }
+        }
+        if let Some(m) = self.mem.take() {
+            let _ = DEFERRED_FREE.try_with(|d| d.borrow_mut().push(m as Box<dyn std::any::Any>));
+        }
     }
 }
 
